@@ -132,6 +132,7 @@ func cmdCheck(args []string) int {
 		abs, len(prog.Repo), prog.nAllFuncs, len(prog.CG.Nodes), loadS)
 	progs := []*Prog{prog}
 	if *tier == "thorough" {
+		thoroughBoost = true
 		p386, err := Load(abs, "386")
 		if err != nil {
 			fmt.Printf("UNDECIDED load GOARCH=386: %v\n", err)
@@ -290,6 +291,16 @@ func runProperty(progs []*Prog, prop *Property, tier string, seed int, known []k
 			samples = append(samples, o)
 		}
 	}
+	var st *selftestResult
+	if tier == "thorough" && !noEvidence {
+		r := runSelftest(prop.ID, progs[0].Dir)
+		st = &r
+		fmt.Printf("%s self-test: %d/%d breaking patches reported, %d/%d behaviour-preserving patches quiet, %d skipped\n", prop.ID, r.Detected, r.Breaking, r.Quiet, r.Benign, len(r.Skipped))
+		for _, f := range r.Failures {
+			fmt.Printf("UNDECIDED property=%s self-test: %s\n", prop.ID, f)
+			internal = append(internal, "self-test: "+f)
+		}
+	}
 	wall := time.Since(t0).Seconds() + loadS
 	var kfKeys []string
 	for k := range seenKF {
@@ -315,6 +326,9 @@ func runProperty(progs []*Prog, prop *Property, tier string, seed int, known []k
 			"trusted_base":           []string{"go/types and go/ssa (golang.org/x/tools v0.29.0)", "VTA call graph for interface calls", "frozen combinator table (checker/cmd/resverif/combs.go)", "library semantics: encoding/json, nats.go, timerqueue, gorilla/websocket, net/http"},
 			"exhaustive":             false,
 		},
+	}
+	if st != nil {
+		ev.Coverage["selftest"] = st
 	}
 	if !noEvidence {
 		if err := writeJSON(filepath.Join(vdir, "evidence", prop.ID+".json"), ev); err != nil {
